@@ -182,3 +182,128 @@ def run(ctx):
     return run_instances("C02", "harness.C02", insts, ctx,
                          assumptions=["the format rules are those of AGC v3 as restated in the harness (prefix varints, length-prefixed big-endian integers, base-64 alphabet 0-9A-Za-z_#)",
                                       "whole-archive decoding by a third-party reader, pack addressing inside the worker pipeline and ZSTD payloads are outside this check (footer/part framing: C13 role archive:format)"])
+
+
+# ---------------------------------------------------------------------------------------------------------------
+# (d) pack addressing: one inductive step of the real flush_pack_compress_only from an arbitrary valid buffer state
+CORE = "ragc-core"
+SEP = 0xFF
+PLACEHOLDER = 0x7F
+PACK = 50
+
+
+class PackStep(Instance):
+    crates = ("ragc-core", "ragc-common")
+
+    def __init__(self, name, raw_group):
+        Instance.__init__(self, name)
+        self.raw = raw_group
+        self.required_witnesses = ("pack_emitted", "stored_raw", "stored_compressed")
+        self.bounds = {"group": "raw group (id 3)" if raw_group else "LZ group (id 20, reference already written)",
+                       "pre-state": "P in {0,1} full packs already written, pending deltas one short of a full pack (invariant: pending ids consecutive, id i at entry (i-1) mod 50 / i mod 50)",
+                       "new segments": "1..2 with symbolic 2-byte data", "zstd": "lossless stub: token / n+1 / compress_bound(n) frame lengths"}
+
+    def path(self, e):
+        raw = self.raw
+        gid = 3 if raw else 20
+        P = e.choose(2, "P")
+        first_raw_pack = raw and P == 0
+        cap = PACK - 1 if first_raw_pack else PACK          # entries of unique deltas in the pack being filled
+        npend = cap - 1
+        first_id = P * PACK + (0 if raw else 1) + (1 if first_raw_pack else 0)
+        if raw and P == 1:
+            first_id = PACK
+        S = lambda b: VecObj([Int(8, 0, x) for x in b], "String")
+        pend = [VecObj([Int(8, 0, 100 + (j % 100)), Int(8, 0, j // 100 + 7)]) for j in range(npend)]
+        pend_ids = [Int(32, 0, first_id + j) for j in range(npend)]
+        nnew = 1 + e.choose(2, "nnew1")
+        segs, datas = [], []
+        for j in range(nnew):
+            d = e.sym_bytes(f"seg{j}", 2, among=[0, 1, 2, 3])
+            datas.append(d)
+            segs.append(e.struct("agc_compressor.rs:BufferedSegment", sample_name=S(b"s"), contig_name=S(b"c"), seg_part_no=Int(64, 0, 5 + j), data=VecObj(list(d)),
+                                 is_rev_comp=False, sample_priority=Int(32, 1, 0)))
+        lz_opt, ref_opt = none(), none()
+        if not raw:
+            ref = [Int(8, 0, x) for x in (0, 1, 2, 3, 3, 2, 1, 0, 0, 2)]
+            lz = e.call_fn(CORE, "LZDiff::new", [Int(32, 0, 20)]); lzc = Cell(lz)
+            e.call_fn(CORE, "LZDiff::prepare", [Ref(lzc), Ref(Cell(VecObj(list(ref))))])
+            lz_opt = some(lzc.v)
+            ref_opt = some(e.struct("agc_compressor.rs:BufferedSegment", sample_name=S(b"r"), contig_name=S(b"c"), seg_part_no=Int(64, 0, 0), data=VecObj(list(ref)),
+                                    is_rev_comp=False, sample_priority=Int(32, 1, 0)))
+        buf = e.struct("agc_compressor.rs:SegmentGroupBuffer", group_id=Int(32, 0, gid), stream_id=Int(64, 0, 7), ref_stream_id=Int(64, 0, 8), reference_segment=ref_opt,
+                       segments=VecObj(segs), ref_written=not raw, segments_written=Int(32, 0, first_id + npend), lz_diff=lz_opt, pending_deltas=VecObj(pend),
+                       pending_delta_ids=VecObj(pend_ids), raw_placeholder_written=bool(raw and P == 1))
+        cfgn = e.p.structs["agc_compressor.rs:StreamingQueueConfig"]
+        cfgv = {n: Opaque("cfg:" + n) for n in cfgn}
+        cfgv.update(min_match_len=Int(64, 0, 20), compression_level=Int(32, 1, 17), verbosity=Int(64, 0, 0))
+        cfg = e.struct("agc_compressor.rs:StreamingQueueConfig", **cfgv)
+        bc = Cell(buf)
+        r = e.call_fn(CORE, "flush_pack_compress_only", [Ref(bc), Ref(Cell(cfg))])
+        e.prove(r.variant == 0, "fmt:pack", "flush_pack_compress_only returned Err")
+        res = r.f[0]
+        writes = e.field(res, "FlushPackResult", "archive_writes").e
+        regs = e.field(res, "FlushPackResult", "registrations").e
+        # the new segments get consecutive ids unless an identical delta is already pending (dedup) or equals the reference (id 0)
+        e.prove(len(regs) == nnew, "fmt:pack_registration", f"{len(regs)} registrations for {nnew} segments")
+        for j, rg in enumerate(regs):
+            e.prove(e.binop("Eq", e.field(rg, "SegmentRegistration", "raw_length"), Int(32, 0, 2)), "fmt:pack_registration", "registered raw_length differs from the segment length")
+            e.prove(e.binop("Eq", e.field(rg, "SegmentRegistration", "group_id"), Int(32, 0, gid)), "fmt:pack_registration", "registered group id differs")
+        e.prove(len(writes) == 1, "fmt:pack", f"{len(writes)} parts emitted when the pending pack became full (expected 1)")
+        e.witness("pack_emitted")
+        w = writes[0]
+        data = e.vec_items(e.field(w, "PreCompressedPart", "data")); meta = e.field(w, "PreCompressedPart", "metadata")
+        e.prove(e.binop("Eq", e.field(w, "PreCompressedPart", "stream_id"), Int(64, 0, 7)), "fmt:pack", "pack written to the wrong stream")
+        # expected unpacked bytes per the format: [placeholder FF] entries each followed by FF, PACK entries in a full pack
+        first_delta_text = None
+        id0 = e.field(regs[0], "SegmentRegistration", "in_group_id")
+        e.prove(e.binop("Eq", id0, Int(32, 0, first_id + npend)), "fmt:pack_addressing", f"the first new segment did not get in-group id {first_id + npend}")
+        # reader's view of the part
+        if meta.conc() and meta.v == 0:
+            e.witness("stored_raw"); unpacked = data
+        else:
+            e.witness("stored_compressed")
+            marker = data[-1]
+            dec = e.call_fn(CORE, "decompress_segment_with_marker", [e.slice_of(data[:-1]), marker])
+            e.prove(dec.variant == 0, "fmt:pack", "the reader cannot decompress the emitted pack")
+            unpacked = e.vec_items(dec.f[0])
+            e.prove(e.binop("Eq", meta, Int(64, 0, len(unpacked))), "fmt:pack_metadata", f"part metadata differs from the unpacked size {len(unpacked)} (0 is reserved for stored-raw parts)")
+            e.prove(marker.conc() and marker.v == 0, "fmt:pack", "delta packs carry marker 0")
+        nsep = 0
+        for x in unpacked:
+            if x.conc() and x.v == SEP:
+                nsep += 1
+        e.prove(nsep == PACK, "fmt:pack_addressing", f"a full pack must hold {PACK} 0xFF-terminated entries, this one has {nsep}")
+        if first_raw_pack:
+            e.prove(len(unpacked) >= 2 and unpacked[0].conc() and unpacked[0].v == PLACEHOLDER and unpacked[1].v == SEP, "fmt:pack_placeholder", "pack 0 of a raw group must start with the 0x7f placeholder entry")
+        # every id of this pack is found by the reader's addressing rule
+        ids = [first_id + j for j in range(npend)] + [first_id + npend]
+        texts = [p_.e for p_ in pend] + [None]
+        for i, txt in zip(ids, texts):
+            pos = (i % PACK) if raw else ((i - 1) % PACK)
+            pk = (i // PACK) if raw else ((i - 1) // PACK)
+            e.prove(pk == P, "fmt:pack_addressing", f"id {i} belongs to pack {pk}, but it was written into pack {P}")
+            got = e.call_fn(CORE, "Decompressor::unpack_contig", [e.slice_of(unpacked), Int(64, 0, pos)])
+            e.prove(got.variant == 0, "fmt:pack_addressing", f"reader cannot find entry {pos}")
+            gb = e.vec_items(got.f[0])
+            if txt is not None:
+                e.prove(e.eq_bytes(gb, txt), "fmt:pack_addressing", f"entry {pos} of pack {P} is not the delta with id {i}")
+            elif raw:
+                e.prove(e.eq_bytes(gb, datas_sorted_first(e, segs, datas)), "fmt:pack_addressing", f"entry {pos} of pack {P} is not the new segment with id {i}")
+        return None
+
+    def classify_panic(self, e, ex):
+        return f"fmt:panic:{ex.where.split('::')[-1]}:{ex.kind}", str(ex)
+
+    def native(self, inp):
+        n = 1 + inp.get("nnew1", 0)
+        return "pack_step", {"raw": self.raw, "P": inp.get("P", 0), "segs": [inp.get(f"seg{j}", [0, 1]) for j in range(n)]}
+
+
+def datas_sorted_first(e, segs, datas):
+    """segments are processed in sorted order (sample, contig, part): part numbers ascend with j, so the first is datas[0]"""
+    return datas[0]
+
+
+_reg(PackStep("pack_raw", True)); _reg(PackStep("pack_lz", False))
+QUICK += ["pack_raw", "pack_lz"]; THOROUGH += ["pack_raw", "pack_lz"]
